@@ -367,3 +367,102 @@ func blockingSendsUnderLock(r *engine.Report, p *engine.Program, rule string, fn
 		}
 	}
 }
+
+// channelHandoffs: blocking sends that are allowed under a lock because a dedicated goroutine
+// receives them (table blockingUnderLockOK). The sender then waits — with its lock held — for
+// that goroutine, so whatever locks the receiver's handler takes are ordered AFTER the held lock.
+var channelHandoffs = map[string]string{
+	"sendRouteFloodChan":     "(*netceptor.Netceptor).sendRoutingUpdate",
+	"updateRoutingTableChan": "(*netceptor.Netceptor).updateRoutingTable",
+}
+
+// lockOrderRule builds the class-level lock-order graph (lock A held while lock B is acquired,
+// directly or in a callee, plus the edges implied by blocking channel hand-offs made under a lock)
+// and requires it to be acyclic.
+func lockOrderRule(r *engine.Report, p *engine.Program, rule string, scope []*ssa.Function, lockFields map[*types.Var]bool) {
+	edges := lockOrderGraph(p, scope, lockFields)
+	// hand-off edges
+	for _, fn := range scope {
+		lf := p.Locks(fn)
+		for _, b := range fn.Blocks {
+			for _, in := range b.Instrs {
+				var chans []ssa.Value
+				switch x := in.(type) {
+				case *ssa.Send:
+					chans = append(chans, x.Chan)
+				case *ssa.Select:
+					if !x.Blocking {
+						continue
+					}
+					for _, st := range x.States {
+						if st.Dir == types.SendOnly {
+							chans = append(chans, st.Chan)
+						}
+					}
+				default:
+					continue
+				}
+				h := lf.HeldAt(in)
+				if len(h) == 0 {
+					continue
+				}
+				for _, ch := range chans {
+					cf, _ := engine.FieldOfLoad(ch)
+					if cf == nil {
+						continue
+					}
+					hname, ok := channelHandoffs[cf.Name()]
+					if !ok {
+						continue
+					}
+					handler := p.Func(hname)
+					if handler == nil {
+						continue
+					}
+					for _, op := range lf.Ops() {
+						if _, held := h[op.Path.String()]; !held || !op.Acquire {
+							continue
+						}
+						from := op.Path.Last()
+						for _, acq := range p.MayAcquire(handler, nil, 0, map[*ssa.Function]bool{}) {
+							to := acq.Path.Last()
+							if from == nil || to == nil || from == to || (lockFields != nil && (!lockFields[from] || !lockFields[to])) {
+								continue
+							}
+							dup := false
+							for _, e := range edges {
+								if e.From == from && e.To == to {
+									dup = true
+								}
+							}
+							if !dup {
+								edges = append(edges, orderEdge{from, to, engine.FuncName(fn) + " waits on " + cf.Name() + " for " + hname, p.Pos(in.Pos())})
+							}
+						}
+					}
+				}
+			}
+		}
+	}
+	es := []string{}
+	for _, e := range edges {
+		es = append(es, fmt.Sprintf("%s → %s (%s at %s)", e.From.Name(), e.To.Name(), e.Where, e.Pos))
+	}
+	r.Extra["lock_order_edges"] = es
+	cycles := cyclesIn(edges)
+	if len(cycles) == 0 {
+		r.Add(rule, "netceptor lock-order graph", 0, engine.Discharged, fmt.Sprintf("%d class-level lock-order edges among %d Netceptor lock fields (including the edges implied by channel hand-offs made under a lock), acyclic", len(edges), len(lockFields)))
+	}
+	for _, cyc := range cycles {
+		s := ""
+		for _, e := range cyc {
+			s += e.From.Name() + " → "
+		}
+		s += cyc[0].From.Name()
+		var o []string
+		for _, e := range cyc {
+			o = append(o, fmt.Sprintf("%s→%s in %s at %s", e.From.Name(), e.To.Name(), e.Where, e.Pos))
+		}
+		r.Add(rule, "cycle "+s, 0, engine.Violated, "lock-order cycle: "+strings.Join(o, "; ")+" — the goroutines involved can wait for each other forever (no update is processed, no table rebuilt, Status() hangs)")
+	}
+}
